@@ -14,7 +14,7 @@ EXPLANATION = (
 ASSUMPTIONS = ["CPython ast parser", "bytearray.find returns the first occurrence or -1", "StreamReader.read(n) returns at most n bytes", "cfg.py exception-edge model"]
 
 def run(chk, program, tier):
-    for r, t in (('BUF-BOUND', 'three-premise buffer bound'), ('BUF-PROGRESS', 'every non-exiting iteration consumes a packet'),
+    for r, t in (('BUF-BOUND', 'three-premise buffer bound'), ('BUF-PROGRESS', 'every non-exiting iteration consumes a packet'), ('SER-DELIVER', 'every complete window behind a marker reaches the decoder'), ('SCAN-PROGRESS', 'the scan loop cannot spin'),
                  ('CSUM-DOM', 'checksum comparison dominates decoding'), ('CSUM-COVER', 'checksum covers positions 2..18'), ('SER-CONST', 'marker / length constants agree')):
         chk.rule(r, t)
     r = K.buf_rules(chk, program)
